@@ -279,6 +279,10 @@ def single_edits(signed, rng, limit=None):
                 if nk not in v:
                     edits.append((path, "add_member", (nk, {})))
                     edits.append((path, "add_member", (nk, digest(0xAD))))
+            elif path and path[-1] == "keys" and v:
+                # one more key-table entry: an existing key once more under a made-up identifier
+                if "ab" * 32 not in v:
+                    edits.append((path, "add_member", ("ab" * 32, v[sorted(v)[0]])))
             elif path and path[-1] in ("byproducts", "environment", "keyval"):
                 if "zz-added" not in v:
                     edits.append((path, "add_member", ("zz-added", "x")))
